@@ -15,6 +15,10 @@ pub struct Case {
     pub sep_a: Vec<String>,
     pub sep_b: Vec<String>,
     pub ignore_case: bool,
+    /// text a starts with this many distinct words w0 w1 w2 ... (0 = none): more distinct words
+    /// than any small integer type can number, against a short text b
+    #[serde(default)]
+    pub many: usize,
 }
 
 pub struct C18;
@@ -55,7 +59,7 @@ impl Prop for C18 {
         crate::fuzzdec::c18(bytes)
     }
     const RULE: &'static str = "two sequences of 0-8 words over a small vocabulary with repeats, case variants and non-ASCII words with special case mappings (incl. pairs whose lower-case form has another byte length), joined by runs of ASCII whitespace (leading/trailing runs included), one separator in thirteen a White_Space code point that is not ASCII whitespace (VT, NBSP, U+3000, NEL, U+2028, em space) x ignore_case. Oracle: index pairs strictly increasing in both coordinates, matched words equal (under to_lowercase when requested), their number equals the textbook LCS length, reported lengths are the word counts, edited_words are the complements of the matched index sets. Non-trivial: LCS length strictly between 0 and min(len) with a repeated word. Distinct = distinct serialised case.";
-    const ESSENTIAL: &'static [&'static str] = &["ignore_case", "case_sensitive", "empty_side", "repeated_word", "partial_match", "non_ascii_whitespace"];
+    const ESSENTIAL: &'static [&'static str] = &["ignore_case", "case_sensitive", "empty_side", "repeated_word", "partial_match", "non_ascii_whitespace", "more_than_65536_distinct_words"];
 
     fn budget(tier: Tier) -> Budget {
         match tier {
@@ -87,9 +91,17 @@ impl Prop for C18 {
             (a, b)
         });
         let seps = || proptest::collection::vec(prop_oneof![12 => select(SEPS).prop_map(str::to_string), 1 => select(SEPS_WIDE).prop_map(str::to_string)], 1..=3);
-        (prop_oneof![(words(), words()), derived], seps(), seps(), any::<bool>())
-            .prop_map(|((a, b), sep_a, sep_b, ignore_case)| Case { a, b, sep_a, sep_b, ignore_case })
-            .boxed()
+        let usual = (prop_oneof![(words(), words()), derived], seps(), seps(), any::<bool>())
+            .prop_map(|((a, b), sep_a, sep_b, ignore_case)| Case { a, b, sep_a, sep_b, ignore_case, many: 0 });
+        // one case in 20000: about 2^16 distinct words against at most three
+        let many = (
+            prop_oneof![65530usize..=65545, Just(70000usize), Just(256usize), Just(257usize)],
+            proptest::collection::vec(select(vec!["w0", "w1", "w255", "w256", "w65535", "w65536", "w65537", "unseen", "W3", "a"]).prop_map(str::to_string), 0..=3),
+            proptest::collection::vec(select(vec!["w0", "unseen", "a"]).prop_map(str::to_string), 0..=2),
+            any::<bool>(),
+        )
+            .prop_map(|(many, b, a, ignore_case)| Case { a, b, sep_a: vec![" ".to_string()], sep_b: vec![" ".to_string()], ignore_case, many });
+        prop_oneof![20000 => usual, 1 => many].boxed()
     }
 
     fn assumptions() -> Vec<String> {
@@ -101,10 +113,12 @@ impl Prop for C18 {
 
     fn check(c: &Case, _strict: bool) -> Outcome {
         let mut out = Outcome::new();
-        let ta = join(&c.a, &c.sep_a, c.sep_a.len() == 3);
+        let a_all: Vec<String> = (0..c.many).map(|i| format!("w{i}")).chain(c.a.iter().cloned()).collect();
+        out.label_if(c.many > 65536, "more_than_65536_distinct_words");
+        let ta = join(&a_all, &c.sep_a, c.sep_a.len() == 3);
         let tb = join(&c.b, &c.sep_b, c.sep_b.len() == 2);
         out.label(if c.ignore_case { "ignore_case" } else { "case_sensitive" });
-        out.label_if(c.a.is_empty() != c.b.is_empty(), "empty_side");
+        out.label_if(a_all.is_empty() != c.b.is_empty(), "empty_side");
         let key = |w: &String| if c.ignore_case { w.to_lowercase() } else { w.clone() };
         // "whitespace-separated words" has two readings once a text contains White_Space code
         // points that are not ASCII whitespace (vertical tab, NBSP, U+3000, ...): the answer has to
